@@ -26,9 +26,15 @@ pub const DEEP_OPS: [&str; 24] = [
     "add", "add", "sub", "mul", "mul", "mul", "dot", "matmul", "gemm", "sum", "cumsum", "get", "getslice",
     "reshape", "permute", "stack", "concat", "constant", "zeros", "ones", "tuple", "tuple", "tupleget", "tupleget",
 ];
-/// elementwise + share-wise unary operations (the fragment of C01_deep_compile_correct_partial)
-pub const DEEP_THEOREM_OPS: [&str; 14] = [
-    "add", "sub", "mul", "mul", "mul", "sum", "cumsum", "get", "getslice", "reshape", "permute", "constant", "zeros", "ones",
+/// additive / bilinear / share-wise unary operations (the fragment of C01_deep_compile_correct_partial)
+pub const DEEP_THEOREM_OPS: [&str; 18] = [
+    "add", "sub", "mul", "mul", "mul", "dot", "matmul", "gemm", "sum", "cumsum", "get", "getslice", "reshape", "permute", "constant",
+    "zeros", "ones", "mul",
+];
+/// product-heavy programs: private x private products feeding products, so that the planner reshapes
+/// its plan (ensure_dependencies_are_reshared, sanity_pass) and reshare blocks are emitted
+pub const DEEP_MUL_OPS: [&str; 14] = [
+    "mul", "mul", "mul", "mul", "mul", "add", "sub", "sum", "permute", "matmul", "dot", "getslice", "tuple", "get",
 ];
 
 fn ty_simple(t: &Type) -> bool {
@@ -192,6 +198,7 @@ fn run_flags(p: &Prog, stream: &str, exhaustive: bool, rng: &mut Rng, out: &mut 
 
 pub fn run(tier: &str, rng: &mut Rng, out: &mut Out) {
     let (n_ring, n_mix, n_thm, n_gen, n_rej) = match tier { "thorough" => (80, 90, 120, 300, 12), "search" => (10, 18, 10, 20, 6), _ => (14, 18, 16, 40, 6) };
+    let n_mul = match tier { "thorough" => 150, "search" => 10, _ => 20 };
     let exhaustive = tier == "thorough";
     let int_sts = [UINT8, INT16, UINT32, INT32, UINT64, INT64, UINT128];
     for i in 0..n_ring {
@@ -213,6 +220,14 @@ pub fn run(tier: &str, rng: &mut Rng, out: &mut Out) {
         // tuple outputs (most of the graph live, CreateTuple output) and single array outputs
         let p = if i % 3 == 0 { gen_program(rng, &cfg) } else { gen_program_single_output(rng, &cfg) };
         run_flags(&p, if thm { "theorem-fragment" } else { "fragment" }, exhaustive, rng, out);
+    }
+    // product-heavy programs, all inputs private (and one random vector)
+    for i in 0..n_mul {
+        let st = if i % 6 == 5 { BIT } else { *rng.pick(&int_sts) };
+        let (ni, no) = (2 + rng.below(2) as usize, 3 + rng.below(7) as usize);
+        let cfg = GenCfg { n_inputs: ni, n_ops: no, scalar_types: vec![st], ops: DEEP_MUL_OPS.to_vec(), small: true };
+        let p = if i % 2 == 0 { gen_program(rng, &cfg) } else { gen_program_single_output(rng, &cfg) };
+        run_flags(&p, "mul-heavy", false, rng, out);
     }
     // rejected: operations outside is_mpc_compiled / the `_ =>` arms, and a too short flag vector
     for i in 0..n_rej {
